@@ -545,7 +545,10 @@ impl Translator {
             | FuncKind::ForeignFunctionWrapper { .. }
             | FuncKind::HostFunctionWrapper(_) => {
                 st.return_stack.pop();
-                let SolvedType::Function(_, out_ty) = func_ty else { unreachable!() };
+                // the return type of this instantiation (a generic `T` may be void here)
+                let SolvedType::Function(_, out_ty) = func_ty.subst(&mono) else {
+                    unreachable!()
+                };
                 if *out_ty == SolvedType::Void {
                     self.emit(st, Instr::ReturnVoid);
                 } else {
